@@ -1265,7 +1265,7 @@ def run(ctx):
     layer("C_reduced_alphabet_depth", lambda c: CSys(c, nhandles=3 if thorough else 2, keys=["a", "k256"], vals={"x": b"x"}, bufs=["dflt", "large"], label="C3", first_acc=None), 10 if thorough else 9)
     # the library created anew (a handle constructed with overwrite=True and another header) while older
     # handles live on: they have to follow at their next session
-    layer("C_recreated_depth", lambda c: CSys(c, nhandles=3 if thorough else 2, keys=["a", "b"], vals={"x": b"x", "yy": b"yy"}, bufs=["dflt", "large"] if thorough else ["dflt"], label="C7", first_acc=None, recreate=True), 10 if thorough else 9)
+    layer("C_recreated_depth", lambda c: CSys(c, nhandles=3 if thorough else 2, keys=["a", "b"], vals={"x": b"x", "yy": b"yy"}, bufs=["dflt", "large"] if thorough else ["dflt"], label="C7", first_acc=None, recreate=True), 9)
     # a second library on another path used by the same process, sessions on both open at the same time
     layer("C_with_second_library_depth", lambda c: CSys(c, nhandles=1, keys=["a", "b"], vals={"x": b"x"}, bufs=["dflt", "large"], label="C5", first_acc=None, bystander=True), 12 if thorough else 8)
     # header fields given at creation through the Collection constructor (each alone and together)
